@@ -13,6 +13,7 @@ import GqlProofs.ValSpec.PossibleSpreads
 import GqlProofs.ValSpec.UnusedFragments
 import GqlProofs.ValSpec.VarRules
 import GqlProofs.Validate.OverlapSound
+import GqlProofs.Props.C18
 import GqlProofs.Validate.OverlapWitness
 /-
   C08 — validation accepts exactly what the rules allow.
@@ -1050,4 +1051,161 @@ example : Spec.variableUniqueness docVarTwice = false ∧ constDefaults docVarTw
 #print axioms C08_NoUnusedFragments_reach
 #print axioms C08_NoUndefinedVariables
 #print axioms C08_NoUnusedVariables
+end C08
+
+/-! ## Capstone: the rules with a proved equivalence, run together -/
+section C08
+open Gql Gql.Validate Gql.Validate.Rules
+
+/-- a rule list with pairwise different names reports nothing iff every member, run alone, reports
+    nothing (`C18_union`, `C18_ok_of_members`, `C18_errors_tagged`) -/
+theorem C08_rule_list_silent_iff (rs : List Rule) (s : Schema) (d : QueryDoc) (hd : (rs.map (·.name)).Nodup) :
+    validate rs s d = .ok [] ↔ ∀ r ∈ rs, validate [r] s d = .ok [] := by
+  constructor
+  · intro h r hr
+    have := C18_union rs s d [] hd h r hr
+    simpa using this
+  · intro h
+    obtain ⟨errs, he⟩ := C18_ok_of_members rs s d (fun r hr => ⟨[], h r hr⟩)
+    rw [he]
+    congr 1
+    apply List.eq_nil_iff_forall_not_mem.2
+    intro x hx
+    obtain ⟨r, hr, hn⟩ := List.mem_map.1 (C18_errors_tagged rs s d errs he x hx)
+    have h1 := C18_union rs s d errs hd he r hr
+    rw [h r hr] at h1
+    injection h1 with h1
+    have : x ∈ errs.filter fun y => decide (y.rule = r.name) := List.mem_filter.2 ⟨hx, by simp [hn]⟩
+    rw [← h1] at this
+    cases this
+
+/-- the default rules with a proved equivalence, in default order: all but
+    OverlappingFieldsCanBeMerged, ValuesOfCorrectType and VariablesInAllowedPosition -/
+def c08Rules : List Rule :=
+  [ fieldsOnCorrectType, fragmentsOnCompositeTypes, knownArgumentNames, knownDirectives, knownFragmentNames,
+    knownRootType, knownTypeNames, loneAnonymousOperation, maxIntrospectionDepth, noFragmentCycles,
+    noUndefinedVariables, noUnusedFragments, noUnusedVariables, possibleFragmentSpreads, providedRequiredArguments,
+    scalarLeafs, singleFieldSubscriptions, uniqueArgumentNames, uniqueDirectivesPerLocation, uniqueFragmentNames,
+    uniqueInputFieldNames, uniqueOperationNames, uniqueVariableNames, variablesAreInputTypes ]
+
+/-- the specification predicates that are NOT compared by the capstone (their rules have no
+    equivalence theorem in `c08Rules`) -/
+def c08Uncovered : List String := ["fieldSelectionMerging", "valuesOfCorrectType", "allVariableUsagesAllowed"]
+
+/-- `c08Rules` is the default rule list without the three rules named above, in the same order -/
+theorem C08_rules_are_default_rules :
+    c08Rules.map (·.name) = (defaultRules.map (·.name)).filter fun n =>
+      !([str "OverlappingFieldsCanBeMerged", str "ValuesOfCorrectType", str "VariablesInAllowedPosition"].contains n) := by
+  decide
+
+/-- hypotheses of the capstone that are not specification predicates themselves: the shape of
+    parser-produced documents, the invariants of loaded schemas, and the two "other rules reject
+    this" side conditions of SingleFieldSubscriptions -/
+structure C08Hyps (s : Schema) (d : QueryDoc) : Prop where
+  /-- operation kinds are the parser's -/
+  kinds : ∀ op ∈ d.ops, op.op ∈ parserOpKinds
+  /-- every selection is written where the type in scope is composite (fails only together with
+      other specification predicates, see the header) -/
+  wellParented : Spec.wellParented s d = true
+  outputTypes : Spec.fieldTypesAreOutputTypes s d = true
+  noEmptyTypeName : s.type? [] = none
+  possibleOK : possibleOK s = true
+  subscriptionRoot : subscriptionRootExact s = true
+  /-- only list and object literals have children (parser) -/
+  valuesShaped : valuesShaped s d = true
+  /-- default values are constant (grammar) -/
+  constDefaults : constDefaults d = true
+  /-- fragment definitions have a type condition (grammar) -/
+  typeConds : ∀ f ∈ d.frags, f.typeCond ≠ []
+  /-- every subscription collects at least one root field -/
+  selectRoot : subscriptionsSelectRoot s d = true
+  /-- collected root fields with the same response key have the same field name -/
+  rootKeys : rootKeysConsistent s d = true
+
+/-- **C08, partial verdict**: for the 24 default rules with a proved equivalence, run together
+    (`validate c08Rules`), the validator accepts exactly the documents that satisfy the 25
+    specification predicates these rules stand for — all of `Spec.specVerdicts` except field
+    merging (§5.3.2), values of correct type (§5.6.1) and allowed variable positions (§5.8.5).
+    The masked forms of the single-rule theorems need no hypothesis here: their prerequisites are
+    members of the same conjunction. -/
+theorem C08_default_rules_iff_spec_partial (s : Schema) (d : QueryDoc) (h : C08Hyps s d) :
+    validate c08Rules s d = .ok [] ↔
+      ((Spec.specVerdicts s d).filter (fun p => !c08Uncovered.contains p.1)).all (·.2) = true := by
+  have hspec : ((Spec.specVerdicts s d).filter (fun p => !c08Uncovered.contains p.1)).all (·.2) = true ↔
+    (Spec.operationNameUniqueness d = true ∧ Spec.loneAnonymousOperation d = true ∧ Spec.singleRootField s d = true ∧
+     Spec.knownRootType s d = true ∧ Spec.fieldSelections s d = true ∧ Spec.leafFieldSelections s d = true ∧
+     Spec.argumentNames s d = true ∧ Spec.argumentUniqueness s d = true ∧ Spec.requiredArguments s d = true ∧
+     Spec.fragmentNameUniqueness d = true ∧ Spec.fragmentSpreadTypeExistence s d = true ∧
+     Spec.fragmentsOnCompositeTypes s d = true ∧ Spec.fragmentsMustBeUsed d = true ∧
+     Spec.fragmentSpreadTargetDefined d = true ∧ Spec.noFragmentCycles d = true ∧
+     Spec.fragmentSpreadIsPossible s d = true ∧ Spec.inputObjectFieldUniqueness s d = true ∧
+     Spec.directivesAreDefined s d = true ∧ Spec.directivesInValidLocations s d = true ∧
+     Spec.directivesUniquePerLocation s d = true ∧ Spec.variableUniqueness d = true ∧
+     Spec.variablesAreInputTypes s d = true ∧ Spec.allVariableUsesDefined s d = true ∧
+     Spec.allVariablesUsed s d = true ∧ Spec.maxIntrospectionDepth d = true) := by
+    simp only [Spec.specVerdicts, c08Uncovered]
+    simp [List.filter, List.all]
+  rw [hspec, C08_rule_list_silent_iff c08Rules s d (by decide)]
+  simp only [c08Rules, List.mem_cons, List.not_mem_nil, or_false, forall_eq_or_imp, forall_eq]
+  constructor
+  · rintro ⟨r1, r2, r3, r4, r5, r6, r7, r8, r9, r10, r11, r12, r13, r14, r15, r16, r17, r18, r19, r20, r21, r22, r23, r24⟩
+    have lone := (C08_LoneAnonymousOperation s d).1 r8
+    have opNames := (C08_UniqueOperationNames s d lone).1 r22
+    have varUniq := (C08_UniqueVariableNames s d).1 r23
+    have fragUniq := (C08_UniqueFragmentNames s d).1 r20
+    have spreadsDef := (C08_KnownFragmentNames s d).1 r5
+    have dirs := (C08_KnownDirectives s d h.kinds).1 r4
+    have cycles := (C08_NoFragmentCycles s d fragUniq).1 r10
+    have types := (C08_KnownTypeNames_VariablesAreInputTypes s d).1 ⟨r7, r24⟩
+    exact ⟨opNames, lone,
+      (C08_SingleFieldSubscriptions s d h.subscriptionRoot spreadsDef h.typeConds h.selectRoot h.rootKeys).1 r17,
+      (C08_KnownRootType s d).1 r6,
+      (C08_FieldsOnCorrectType s d h.wellParented).1 r1,
+      (C08_ScalarLeafs s d h.wellParented h.outputTypes).1 r16,
+      (C08_KnownArgumentNames s d h.wellParented h.kinds).1 r3,
+      (C08_UniqueArgumentNames s d h.kinds).1 r18,
+      (C08_ProvidedRequiredArguments s d h.wellParented h.kinds).1 r15,
+      fragUniq, types.1,
+      (C08_FragmentsOnCompositeTypes s d h.noEmptyTypeName).1 r2,
+      (C08_NoUnusedFragments s d cycles fragUniq).1 r12,
+      spreadsDef, cycles,
+      (C08_PossibleFragmentSpreads s d h.wellParented h.noEmptyTypeName h.possibleOK).1 r14,
+      (C08_UniqueInputFieldNames s d h.valuesShaped).1 r21,
+      dirs.1, dirs.2,
+      (C08_UniqueDirectivesPerLocation s d h.kinds dirs.1).1 r19,
+      varUniq, types.2,
+      (C08_NoUndefinedVariables s d fragUniq h.constDefaults).1 r11,
+      (C08_NoUnusedVariables s d fragUniq h.constDefaults varUniq).1 r13,
+      (C08_MaxIntrospectionDepth s d cycles).1 r9⟩
+  · rintro ⟨opNames, lone, root1, rootType, fields, leafs, argNames, argUniq, reqArgs, fragUniq, typeEx, fragComp,
+      fragsUsed, spreadsDef, cycles, possible, inputUniq, dirsDef, dirsLoc, dirsUniq, varUniq, varTypes, varsDef, varsUsed, depth⟩
+    have types := (C08_KnownTypeNames_VariablesAreInputTypes s d).2 ⟨typeEx, varTypes⟩
+    exact ⟨(C08_FieldsOnCorrectType s d h.wellParented).2 fields,
+      (C08_FragmentsOnCompositeTypes s d h.noEmptyTypeName).2 fragComp,
+      (C08_KnownArgumentNames s d h.wellParented h.kinds).2 argNames,
+      (C08_KnownDirectives s d h.kinds).2 ⟨dirsDef, dirsLoc⟩,
+      (C08_KnownFragmentNames s d).2 spreadsDef,
+      (C08_KnownRootType s d).2 rootType,
+      types.1,
+      (C08_LoneAnonymousOperation s d).2 lone,
+      (C08_MaxIntrospectionDepth s d cycles).2 depth,
+      (C08_NoFragmentCycles s d fragUniq).2 cycles,
+      (C08_NoUndefinedVariables s d fragUniq h.constDefaults).2 varsDef,
+      (C08_NoUnusedFragments s d cycles fragUniq).2 fragsUsed,
+      (C08_NoUnusedVariables s d fragUniq h.constDefaults varUniq).2 varsUsed,
+      (C08_PossibleFragmentSpreads s d h.wellParented h.noEmptyTypeName h.possibleOK).2 possible,
+      (C08_ProvidedRequiredArguments s d h.wellParented h.kinds).2 reqArgs,
+      (C08_ScalarLeafs s d h.wellParented h.outputTypes).2 leafs,
+      (C08_SingleFieldSubscriptions s d h.subscriptionRoot spreadsDef h.typeConds h.selectRoot h.rootKeys).2 root1,
+      (C08_UniqueArgumentNames s d h.kinds).2 argUniq,
+      (C08_UniqueDirectivesPerLocation s d h.kinds dirsDef).2 dirsUniq,
+      (C08_UniqueFragmentNames s d).2 fragUniq,
+      (C08_UniqueInputFieldNames s d h.valuesShaped).2 inputUniq,
+      (C08_UniqueOperationNames s d lone).2 opNames,
+      (C08_UniqueVariableNames s d).2 varUniq,
+      types.2⟩
+
+#print axioms C08_rule_list_silent_iff
+#print axioms C08_rules_are_default_rules
+#print axioms C08_default_rules_iff_spec_partial
 end C08
